@@ -40,7 +40,9 @@ class C05(Check):
         base = [P, ('not', P), ('once', P), ('hist', P), ('since', P, ('not', P)), ('oncet', 0, 2, P), ('oncet', 2, 4, P), ('histt', 0, 4, P), ('histt', 2, 2, P),
                 ('and', P, Q), ('or', ('once', P), Q), ('pred', 'geq', ('a2', 'add', ('var', 0), ('var', 1)), ('const', 0)), ('sincet', 0, 4, P, Q),
                 ('evt', 0, 2, P), ('alwt', 2, 4, P), ('implies', P, ('evt', 0, 4, Q)), ('pred', 'geq', ('a1', 'neg', ('var', 0)), ('const', 0)),
-                ('pred', 'geq', ('a1', 'abs', ('var', 0)), ('const', 2)), ('since', ('once', P), P), ('and', ('once', P), ('once', P))]
+                ('pred', 'geq', ('a1', 'abs', ('var', 0)), ('const', 2)), ('since', ('once', P), P), ('and', ('once', P), ('once', P)),
+                ('or', P, Q), ('or', ('oncet', 0, 4, P), Q), ('and', ('histt', 0, 4, P), Q), ('or', ('alwt', 0, 4, P), Q), ('implies', ('histt', 2, 4, P), Q),
+                ('or', Q, ('oncet', 0, 2, P)), ('iff', P, Q), ('since', ('histt', 0, 2, P), Q)]
         items = [(f, 2) for f in base for _ in range(2)]
         for i in range(nrand):
             nv = rng.choice([1, 1, 2, 2])
@@ -82,9 +84,26 @@ class C05(Check):
                 kmax = min(len(sigs[i]) for i in used)
                 chunkings.append({str(i): [(0, len(sigs[i]))] for i in used})
                 chunkings.append({str(i): splits(len(sigs[i]), kmax, rng) for i in used})
-                for _ in range(22):
+                for _ in range(16):
                     k = rng.randint(1, kmax)
                     chunkings.append({str(i): splits(len(sigs[i]), k, rng) for i in used})
+                # updates in which some variable receives no sample at all (an empty batch)
+                for _ in range(8):
+                    ks = {i: rng.randint(1, len(sigs[i])) for i in used}
+                    K = max(ks.values())
+                    ch = {}
+                    for i in used:
+                        sp = splits(len(sigs[i]), ks[i], rng)
+                        slots = sorted(rng.sample(range(K), ks[i]))
+                        full, pos = [], 0
+                        for j in range(K):
+                            if j in slots:
+                                full.append(sp[slots.index(j)])
+                                pos = sp[slots.index(j)][1]
+                            else:
+                                full.append((pos, pos))
+                        ch[str(i)] = full
+                    chunkings.append(ch)
             cases.append({'f': f, 'nv': nv, 'sigs': sigs, 'chunkings': chunkings, 'past': fml.has_future(f), 'n': max(len(s) for s in sigs)})
         return cases
 
